@@ -230,11 +230,12 @@ class SQLLexer(Lexer):
     def INTEGER(self, t):
         return t
 
-    @_(r"'(?:\\.|[^'])*(?:''(?:\\.|[^'])*)*'")
+    # a backslash is consumed together with the next character, or alone in front of a quote: the alternatives never overlap (no backtracking blow-up)
+    @_(r"'(?:\\[\s\S]|[^'\\]|\\(?='))*(?:''(?:\\[\s\S]|[^'\\]|\\(?='))*)*'")
     def QUOTE_STRING(self, t):
         return t
 
-    @_(r'"(?:\\.|[^"])*"')
+    @_(r'"(?:\\[\s\S]|[^"\\]|\\(?="))*"')
     def DQUOTE_STRING(self, t):
         return t
 
